@@ -239,7 +239,7 @@ theorem child_classification (info : PkgInfo) (conv : Conv) (out : Call → Outc
     cases e <;> simp
   | ok p =>
     obtain ⟨a, words⟩ := p
-    simp only []
+    simp only [childCore]
     split
     · simp
     · split
